@@ -541,6 +541,7 @@ func c17Case(o *Out, r *Rng, set *sSet, sdl string, strategy string, tops []*iTo
 
 func init() {
 	props["C17"] = func(o *Out, rng *Rng, tier string) {
+		c17RegisterField(o)
 		rounds := 40
 		if tier == "thorough" {
 			rounds = 1500
@@ -614,5 +615,59 @@ func init() {
 				}
 			}
 		}
+	}
+}
+
+// ---- resolver set-up calls that must leave the schema as it is ------------------------------------------
+//
+// "The answer is the same whichever resolver strategy the application uses": binding a field to a Go method
+// (RegisterField, with the method's argument order) configures the reflection strategy, it does not define the
+// schema.  Whatever the call is given, and whether it succeeds or reports an error, the arguments introspection
+// lists for the field are the declared ones.  Fixed table, every run.
+
+type c17RQ struct{}
+
+func (q *c17RQ) A(x, y int32, s string) int32 { return x + y }
+
+type c17RTop struct{ Query *c17RQ }
+
+func c17RegisterField(o *Out) {
+	const sdl = "type Query { a(x: Int, y: Int, s: String): Int }"
+	const q = `{ __type(name: "Query") { fields { name args { name } } } }`
+	argNames := func(root *ggql.Root) string {
+		res := safeResolve(root, q, "", nil)
+		var names []string
+		data, _ := res["data"].(map[string]interface{})
+		ty, _ := data["__type"].(map[string]interface{})
+		fs, _ := ty["fields"].([]interface{})
+		for _, f := range fs {
+			fm, _ := f.(map[string]interface{})
+			as, _ := fm["args"].([]interface{})
+			for _, a := range as {
+				am, _ := a.(map[string]interface{})
+				names = append(names, fmt.Sprint(am["name"]))
+			}
+		}
+		sort.Strings(names)
+		return strings.Join(names, ",")
+	}
+	for _, args := range [][]string{{"x", "y", "s"}, {"s", "x", "y"}, {"x", "x", "y"}, {"x", "y"}, {"x", "y", "zz"}, {"y", "y", "y"}} {
+		root := ggql.NewRoot(&c17RTop{Query: &c17RQ{}})
+		if err := root.ParseString(sdl); err != nil {
+			panic(err)
+		}
+		if err := root.RegisterType(&c17RQ{}, "Query"); err != nil {
+			panic(err)
+		}
+		before := argNames(root)
+		err := root.RegisterField("Query", "a", "A", args...)
+		after := argNames(root)
+		es := ""
+		if err != nil {
+			es = err.Error()
+		}
+		o.Count("RegisterField calls")
+		o.Emit(Case{Term: N("c17r", S(strings.Join(args, " "))), Obs: N("obs", B(before == after)),
+			Meta: map[string]interface{}{"call": fmt.Sprintf("RegisterField(Query, a, A, %v)", args), "error": es, "args_before": before, "args_after": after}, Nontrivial: true})
 	}
 }
